@@ -377,7 +377,9 @@ func hasDestroyed(rs []ringD, sel []string) bool {
 
 func run(r *core.Run) {
 	r.Rule = "source key stores built through the API from generated ring descriptions (0-3 keys per ring, key pairs / symmetric / both formats, assorted states incl. destroyed, with or without current), a selection of ring paths (existing, repeated or missing), mode private / public-only, target empty or holding some of the rings; " +
-		"a case is non-trivial when at least one ring with at least one key is selected; distinct by the op line"
+		"a case is non-trivial when at least one ring with at least one key is selected; distinct by the op line. " +
+		"v1 stream: a real v1 key store with two clients (storage key pair, symmetric, HMAC keys, 0-2 rotations each) and a poison pair; export by id of every kind and export of everything, import into a fresh store, compare through the read API; bundle scan; sampled single-byte modifications of bundle and access key"
+	runV1(r) // v1 key store first: its regression corpus (repo-patches/04) runs on every run
 	rd := r.Rand.Fork()
 	n := r.N(250, 6000)
 	tamperBudget := r.N(6, 60)
